@@ -59,8 +59,8 @@ PLAN = {
         "prop": ["PassImplementsRel"],
         "mc_quick": ["CfgsQ1", "CfgsQ2"],
         "vacuity": [("DevLimit", "CfgsQ1", "ConnLimit")],
-        "scen_quick": ["h1-max1-AAB", "h1-max2-AAAA", "h1-max1-close", "h1-guess-max1", "h1-retries-max1-AA", "h2-max1-AAB"],
-        "scen_thorough": ["h1-max1-AAB", "h1-max2-AAAA", "h1-max1-close", "h1-guess-max1", "h1-guess-max2", "h1-max3-ABCAB", "h1-max2-ABC-keep0", "h1-max2-ABA-keep1", "h1-tls-max1-AAB", "h1-max1-abandon", "h1-retries-max1-AA", "h1-retries-max2-AB", "h2-max1-AAB", "h2-max1-BAB", "tun-max1-AAB", "socks-max1-AAB", "h2-alpn-max1-AAB", "h2-alpn-max2-AAAB"],
+        "scen_quick": ["h1-max1-AAB", "h1-max2-AAAA", "h1-max1-close", "h1-guess-max1", "h1-retries-max1-AA", "h2-max1-AAB", "h1-max1-A-nonascii-A"],
+        "scen_thorough": ["h1-max1-A-nonascii-A", "h1-max2-AB-nonascii-A", "h1-max1-AAB", "h1-max2-AAAA", "h1-max1-close", "h1-guess-max1", "h1-guess-max2", "h1-max3-ABCAB", "h1-max2-ABC-keep0", "h1-max2-ABA-keep1", "h1-tls-max1-AAB", "h1-max1-abandon", "h1-retries-max1-AA", "h1-retries-max2-AB", "h2-max1-AAB", "h2-max1-BAB", "tun-max1-AAB", "socks-max1-AAB", "h2-alpn-max1-AAB", "h2-alpn-max2-AAAB"],
         "strategies": ["base", "dfs", "fault", "cancel-scope", "late", "late+fault"],
     },
     "C05": {
